@@ -11,7 +11,7 @@ from pathlib import Path
 from cfdppy.filestore import NativeFilestore
 
 from .. import models
-from ..world import CKS, InternalError, Runner, World, _scratch_base
+from ..world import Plan, CKS, InternalError, Runner, World, _scratch_base
 
 PROP = "C09"
 LEVEL = "exploration"
@@ -44,6 +44,11 @@ def gen_cases(tier, seed):
         for size in (0, 1, 5, 8, 13, 37):
             for mode in ("ack", "unack"):
                 cases.append({"kind": "eof", "cks": cks, "size": size, "mode": mode, "seed": seed})
+    # long-lived sender: several transfers of different files through the same handler / user / filestore objects, with lost ACK(EOF)s
+    # (the EOF is generated again at the timer expiry) and cancels
+    nseq = 120 if tier == "quick" else 3000
+    for i in range(nseq):
+        cases.append({"kind": "eofseq", "seed": seed * 7919 + 100_000 + i})
     return cases
 
 
@@ -116,6 +121,61 @@ def run_case(case):
                         sample = {"L": L, "type": typ, "prefix": n, "chunk": chunk}
         finally:
             shutil.rmtree(d, ignore_errors=True)
+    elif case["kind"] == "eofseq":
+        rng = random.Random(case["seed"])
+        cks = rng.choice(TYPES)
+        base = {"mode": rng.choice(["ack", "ack", "unack"]), "cks": cks, "size": 0, "seg": rng.choice([3, 4, 8]), "closure": rng.random() < 0.5, "fs": rng.choice(["native", "mem"]),
+                "ack_limit": 4}
+        with World(base) as w:
+            for ti in range(rng.choice([2, 3, 4])):
+                size = rng.choice([0, 1, 5, 13, 29])
+                w.data = rng.randbytes(size)
+                w.cfg["size"] = size
+                w.write_raw("src", w.src_path, w.data)
+                drops = {"n": rng.choice([0, 1, 2])}
+
+                class DropAckEof(Plan):
+                    def on_emit(self, idx, item):
+                        if item["d"].get("kind") == "ACK_EOF" and drops["n"] > 0:
+                            drops["n"] -= 1
+                            self.applied.append((idx, "drop", "ACK_EOF", item["side"]))
+                            return []
+                        return [("now", item["raw"])]
+
+                actions = {}
+                if rng.random() < 0.3:
+                    actions[rng.randrange(1, 8)] = [("cancel", "S")]
+                mark = w.log.seq
+                r = Runner(w, plan=DropAckEof(), actions=actions, max_expiries=12)
+                try:
+                    w.put()
+                    r.run()
+                except InternalError as e:
+                    viol.append({"clause": "sender-run-raised", "etype": type(e.exc).__name__, "case": base, "transfer": ti})
+                    break
+                neof = 0
+                for ev in w.log.of("tx", "S"):
+                    d = ev["d"]
+                    if ev["seq"] < mark or d.get("kind") != "EOF":
+                        continue
+                    neof += 1
+                    obs["eof_pdus_checked"] += 1
+                    obs["eof_" + d["cond"]] += 1
+                    if ti > 0:
+                        obs["eof_pdus_on_reused_sender"] += 1
+                    want = models.checksum(cks, w.data[: d["size"]]).hex()
+                    if d["size"] > len(w.data) or d["cksum"] != want:
+                        viol.append({"clause": "eof-checksum-differs-from-model", "cks": cks, "eof": {k: d[k] for k in ("cond", "size", "cksum")},
+                                     "want": want, "file_size": len(w.data), "transfer_on_this_sender": ti, "eof_number_in_transfer": neof})
+                    sigs.add(hashlib.sha1(f"eofseq|{case['seed']}|{ti}|{neof}".encode()).hexdigest()[:16])
+                if neof > 1:
+                    obs["eof_regenerated_after_timer"] += neof - 1
+                for ep in (w.S, w.D):
+                    if ep.h.state.name != "IDLE":
+                        ep.reset()
+                        ep.drain()
+                    ep.outbox.clear()
+                sample = {"cks": cks, "transfers": ti + 1, "eofs_in_last": neof}
     else:
         # sender level: harvest EOF PDUs for a normal run and for a cancel before every round
         base = {"mode": case["mode"], "cks": case["cks"], "size": case["size"], "seg": 4, "closure": case["mode"] == "unack", "content": case["seed"] % 5}
@@ -151,4 +211,4 @@ def exhaustive(tier):
 
 
 REQUIRED = {"calls_null": 100, "calls_modular": 100, "calls_crc32": 100, "calls_crc32c": 100, "verify_calls": 1000,
-            "eof_pdus_checked": 50, "eof_CANCEL_REQUEST_RECEIVED": 10, "eof_NO_ERROR": 10}
+            "eof_pdus_checked": 50, "eof_pdus_on_reused_sender": 50, "eof_regenerated_after_timer": 20, "eof_CANCEL_REQUEST_RECEIVED": 10, "eof_NO_ERROR": 10}
